@@ -114,7 +114,8 @@ def sliced():
     parts = [
         "    // ---- text of /repo's context.rs, unchanged ----",
         "    #[derive(Debug)]\n    pub " + slicer.item_text(src, r"struct\s+Context\b"),
-        "    impl Context {\n" + slicer.functions_text(ctx_impl, STACK_FNS) + "\n    }",
+        # the listed methods plus every private helper of the impl block they call (a refactoring may introduce one)
+        "    impl Context {\n" + slicer.functions_text(ctx_impl, slicer.closure(ctx_impl, [f for f in STACK_FNS if f in slicer.fn_names(ctx_impl)])) + "\n    }",
         "    #[derive(Debug)]\n    " + slicer.item_text(src, r"struct\s+State\b"),
         "    " + slicer.item_text(src, r"impl\s+State\b"),
         "    #[derive(Debug)]\n    pub " + slicer.item_text(src, r"struct\s+MemoryBlock\b"),
